@@ -20,8 +20,8 @@ REPO = os.environ.get("CB_REPO", "/repo")     # CB_REPO: validate a check agains
 CACHE = os.path.join(VERIF, ".cache")
 COQ = os.path.join(VERIF, "coq")
 BIN = os.path.join(VERIF, "bin")
-EVID = os.path.join(VERIF, "evidence")
-REPLAYS = os.path.join(VERIF, "replays")
+EVID = os.environ.get("CB_EVID_DIR") or os.path.join(VERIF, "evidence")      # redirected when validating mutants
+REPLAYS = os.environ.get("CB_REPLAY_DIR") or os.path.join(VERIF, "replays")
 SCRATCH_ROOT = "/var/tmp"
 GUARD = "CB_VERIF"
 NCPU = min(16, os.cpu_count() or 4)
@@ -298,6 +298,14 @@ def coq_check_props(prop, extra_deps=()):
             m = re.search(r'File "\./([^"]+)", line (\d+)', out)
             res["failed_theorem"] = ("dependency " + m.group(1)) if m else "dependency"
     return res
+
+
+def coqchk(prop, timeout=2400):
+    """Independent re-check of the property's compiled closure with coqchk; returns (ok, axioms-text)."""
+    rc, o, e = sh(["coqchk", "-o", "-silent", "-Q", ".", "Cb", "Cb.%s.Properties_%s" % (prop, prop)], cwd=COQ, timeout=timeout)
+    txt = (o + e)
+    m = re.search(r"CONTEXT SUMMARY(.*)", txt, re.S)
+    return rc == 0, (m.group(1).strip() if m else txt[-1500:])
 
 
 def model_bin(prop):
